@@ -66,7 +66,7 @@ def run(ctx):
     ctx.exhaustive = True
     obs = ctx.path("document_obs.ndjson")
     ctx.vh(["document", "exec"], stdin_path=hist, stdout_path=obs, timeout=3000)
-    bad, total = common.validate_obs(ctx, "DocumentTrace", "DocumentTrace", "document_obs.ndjson", obs, timeout=3000, chunk=60000)
+    bad, total = common.validate_obs(ctx, "DocumentTrace", "DocumentTrace", "document_obs.ndjson", obs, timeout=3000, chunk=12000)
     drift = 0
     for o in bad:
         ex = o["spec_extras"]
